@@ -18,13 +18,14 @@ class SimNet:
     """All simulated hosts of one run."""
 
     def __init__(self, kernel, rng, latency=0.0005, sndbuf=65536, short_write_p=0.0, max_segment=None,
-                 jitter=0.0, connect_delay=0.001):
+                 jitter=0.0, connect_delay=0.001, eagain_p=0.0):
         self.kernel = kernel
         self.rng = rng
         self.latency = latency
         self.jitter = jitter
         self.sndbuf = sndbuf
         self.short_write_p = short_write_p
+        self.eagain_p = eagain_p
         self.max_segment = max_segment
         self.connect_delay = connect_delay
         self.listeners: dict = {}
@@ -185,6 +186,10 @@ class SimSocket:
                 raise BlockingIOError(errno.EAGAIN, "Resource temporarily unavailable")
             k.block(self, None)
             self._check_open()
+        if net.eagain_p and not self._blocking and net.rng.random() < net.eagain_p:
+            # spurious readiness: select() said writable, send() still would block (legal for non-blocking sockets)
+            k.fault("eagain")
+            raise BlockingIOError(errno.EAGAIN, "Resource temporarily unavailable")
         n = min(space, len(data))
         if n > 1 and net.short_write_p and net.rng.random() < net.short_write_p:
             n = net.rng.randrange(1, n)
